@@ -33,12 +33,31 @@ pub struct Violation {
     /// narrow signature used for known-finding matching
     pub signature: String,
     pub detail: String,
+    /// decisions observed during the failing run that are not part of the generated case (e.g. the
+    /// thread schedule): a JSON object merged into the case so that replay executes them explicitly
+    #[serde(default, skip_serializing_if = "Option::is_none")]
+    pub patch: Option<Value>,
 }
 
 impl Violation {
     pub fn new(oracle: &str, class: &str, signature: impl Into<String>, detail: impl Into<String>) -> Self {
-        Self { oracle: oracle.into(), class: class.into(), signature: signature.into(), detail: detail.into() }
+        Self { oracle: oracle.into(), class: class.into(), signature: signature.into(), detail: detail.into(), patch: None }
     }
+    pub fn with_patch(mut self, patch: Value) -> Self {
+        self.patch = Some(patch);
+        self
+    }
+}
+
+/// Merge the top-level keys of `patch` into `case`.
+pub fn apply_patch(case: &Value, patch: Option<&Value>) -> Value {
+    let mut out = case.clone();
+    if let (Some(o), Some(p)) = (out.as_object_mut(), patch.and_then(Value::as_object)) {
+        for (k, v) in p {
+            o.insert(k.clone(), v.clone());
+        }
+    }
+    out
 }
 
 /// Per-run context handed to a scenario's `execute`.
